@@ -2,8 +2,10 @@
 C07 — grid numbering and connectivity form a consistent bijection.
 
 Model: `DarsiaModel.Grid` (generic dimension: `shape : List Nat`; cells in Fortran order; faces of axis `a` are the
-multi-indices of `shape - e_a`, numbered `offset a + encF`).  Every theorem is for ALL shapes (any number of axes,
-any extents including 0 and 1).  The literal corner tables are re-tabulated from the running code (DarsiaGen.GridTables).
+multi-indices of `shape - e_a`, numbered `offset a + encF`).  Every theorem is about the MODEL on every shape list; the code
+builds grids only for shapes accepted by `gridGuard` (1–3 axes, all extents ≥ 1 — numpy raises for an extent 0, the
+constructor for other dimensions), so model values outside the guard (e.g. `numFaces [0, 3] = 0`) describe nothing the code
+computes.  The literal corner tables are re-tabulated from the running code (DarsiaGen.GridTables).
 -/
 import DarsiaModel.Grid
 import DarsiaGen.GridTables
@@ -11,6 +13,7 @@ import DarsiaProofs.Grid
 import DarsiaProofs.FV
 import DarsiaModel.GridFromImage
 import Mathlib.Tactic.FieldSimp
+import Mathlib.Data.List.Nodup
 namespace Darsia.C07
 open Darsia
 
@@ -183,7 +186,8 @@ theorem rev_none_iff_boundary (shape : List Nat) (a c : Nat) (ha : a < shape.len
   · simp only [rev, Nat.one_ne_zero, if_false]
     split <;> omega
 
-/-- Interior and exterior faces partition the faces of each axis. -/
+/-- (near-definitional: `exteriorFaces` is defined, like in the code, as the faces of the axis that are not interior) Interior and
+exterior faces partition the faces of each axis; `faces_nodup` adds that no face is listed twice. -/
 theorem interior_exterior_partition (shape : List Nat) (a : Nat) :
     (∀ f, f ∈ interiorFaces shape a → f ∈ facesOf shape a) ∧
     (∀ f, f ∈ exteriorFaces shape a → f ∈ facesOf shape a) ∧
@@ -205,6 +209,21 @@ theorem interior_exterior_partition (shape : List Nat) (a : Nat) :
   · rintro f ⟨h1, h2⟩
     have := (List.mem_filter.1 h2).2
     simp [h1] at this
+
+/-- no face is listed twice in `faces[a]`, `interior_faces[a]`, `exterior_faces[a]` -/
+theorem faces_nodup (shape : List Nat) (a : Nat) :
+    (facesOf shape a).Nodup ∧ (interiorFaces shape a).Nodup ∧ (exteriorFaces shape a).Nodup := by
+  have h1 : (facesOf shape a).Nodup :=
+    List.Nodup.map (fun x y h => by simpa using h) List.nodup_range
+  refine ⟨h1, ?_, List.Nodup.filter _ h1⟩
+  have e : interiorFaces shape a =
+      ((List.range (nfa shape a)).filter fun k => isInterior shape a (decF (fshape shape a) k)).map fun k => offset shape a + k := by
+    simp only [interiorFaces, boxF, List.filter_map, List.map_map]
+    refine List.map_congr_left fun k hk => ?_
+    have hk' : k < nfa shape a := List.mem_range.1 (List.mem_filter.1 hk).1
+    simp [faceNum, encF_decF _ _ hk']
+  rw [e]
+  exact List.Nodup.map (fun x y h => by simpa using h) (List.Nodup.filter _ List.nodup_range)
 
 /-- In two and more dimensions the interior faces are exactly the faces all of whose tangential neighbour faces
 exist, i.e. for every other axis `b` both cells of the face have a lower and an upper face along `b`.
@@ -287,6 +306,13 @@ theorem grid_guard_ok (shape : List Nat) (h : List Rat) :
     · intro e; cases e
     · rintro ⟨e, _⟩; exact absurd e h2
   rw [if_neg h2]
+  by_cases hz : 2 ≤ shape.countP (fun n => n == 0)
+  · rw [if_pos hz]; constructor
+    · intro e; cases e
+    · rintro ⟨_, _, _, hne⟩
+      have : shape.countP (fun n => n == 0) = 0 := List.countP_eq_zero.2 fun n hn => by simpa using hne n hn
+      omega
+  rw [if_neg hz]
   by_cases h3 : shape.length = 0 ∨ 3 < shape.length
   · rw [if_pos h3]; constructor
     · intro e; cases e
@@ -323,22 +349,28 @@ theorem vol_times_cells : ∀ (dims : List Rat) (shape : List Nat), dims.length 
     rw [← ih]
     field_simp
 
-/-- **`generate_grid`**: for a well-formed image geometry (`CS.ok`: one positive extent and one positive length per axis,
-1–3 axes) the derived grid is accepted by the constructor guard, has the image's voxel shape, and its voxel volume times its
-number of cells is the physical volume of the image, `Π dimensions`. -/
-theorem generate_grid_volume (cs : CS) (hok : cs.ok) :
+/-- **`generate_grid`**: for an image geometry with one positive extent and one length per axis (1–3 axes; nothing is assumed of
+the origin, which `generate_grid` does not read) the derived grid is accepted by the constructor guard, has the image's voxel
+shape, and its voxel volume times its number of cells is the physical volume of the image, `Π dimensions`. -/
+theorem generate_grid_volume (cs : CS) (hs : cs.shape.length = cs.dim.toNat) (hd : cs.dims.length = cs.dim.toNat)
+    (hp : ∀ s ∈ cs.shape, 0 < s) :
     gridGuard (generateGrid cs).1 (generateGrid cs).2 = .ok () ∧ (generateGrid cs).1 = cs.shape ∧
     vol (generateGrid cs).2 * ((numCells (generateGrid cs).1 : Nat) : Rat) = prodR cs.dims := by
-  have hlen : cs.voxelSize.length = cs.shape.length := by simp [CS.voxelSize, hok.shapeLen]
-  have hd : 1 ≤ cs.dim.toNat ∧ cs.dim.toNat ≤ 3 := by cases cs.dim <;> simp [Dim.toNat]
+  have hlen : cs.voxelSize.length = cs.shape.length := by simp [CS.voxelSize, hs]
+  have hdim : 1 ≤ cs.dim.toNat ∧ cs.dim.toNat ≤ 3 := by cases cs.dim <;> simp [Dim.toNat]
   refine ⟨?_, rfl, ?_⟩
   · rw [grid_guard_ok]
-    have e : (generateGrid cs).1.length = cs.dim.toNat := hok.shapeLen
-    refine ⟨hlen, by rw [e]; exact hd.1, by rw [e]; exact hd.2, fun n hn => ?_⟩
-    have := hok.shapePos n hn; omega
+    have e : (generateGrid cs).1.length = cs.dim.toNat := hs
+    refine ⟨hlen, by rw [e]; exact hdim.1, by rw [e]; exact hdim.2, fun n hn => ?_⟩
+    have := hp n hn; omega
   · simp only [generateGrid, vol, numCells, CS.voxelSize, CS.h]
-    rw [← hok.shapeLen]
-    exact vol_times_cells cs.dims cs.shape (by rw [hok.dimsLen, hok.shapeLen]) hok.shapePos
+    rw [← hs]
+    exact vol_times_cells cs.dims cs.shape (by rw [hd, hs]) hp
+
+/-- non-vacuity: a 4×2 image of size 2×3 — the state the `gengrid` driver op builds -/
+example : let cs : CS := { dim := .d2, shape := [4, 2], dims := [2, 3], origin := [0, 0] }
+    generateGrid cs = ([4, 2], [1/2, 3/2]) ∧ vol (generateGrid cs).2 * ((numCells (generateGrid cs).1 : Nat) : Rat) = 6 := by
+  decide +kernel
 
 /-- The corner indices recorded for a face (tables re-tabulated from the running code) denote reference-cell corners
 that lie on that face: in the lower neighbour (side 0) the face is the side `x_a = 1`, in the upper neighbour (side 1)
